@@ -174,6 +174,7 @@ func (w *World) apply(a Act) (ok bool, rec map[string]interface{}) {
 		p := w.BuildPod(set, PodSpec{Ord: o, Phase: ph, Ready: ready, Term: term, Rev: rev, Owner: owner}, len(set.Spec.VolumeClaimTemplates))
 		e.api.Put(RPods, p)
 		e.podIdx.Add(e.apiPod(p.Name).DeepCopy())
+		e.cursor[RPods] = len(e.api.evlog[RPods]) // (the initial population is in the cache already: no events)
 		return true, nil
 	case "Reconcile":
 		if w.queueMode && e.ssc.VerifQueue().Len() == 0 {
@@ -356,11 +357,49 @@ func (w *World) ClusterState() map[string]interface{} {
 		"revs":   w.AbsRevs(as),
 		"rvSame": as != nil && cs != nil && as.ResourceVersion == cs.ResourceVersion,
 		"queued": w.queueMode && w.e.ssc.VerifQueue().Len() > 0,
-		"pvcs":   w.AbsApiPVCs(),
-		"cpvcs":  w.AbsPVCs(),
+		// the pod events the informer has not delivered yet, each as the (old, new) pair its handler will see
+		"pending": w.pendingPodEvents(as),
+		"pvcs":    w.AbsApiPVCs(),
+		"cpvcs":   w.AbsPVCs(),
 		// the identity of every claim object: a claim that is deleted and re-created is a different claim
 		"pvcuids": w.pvcUIDs(),
 	}
+}
+
+func (w *World) pendingPodEvents(set *apps.StatefulSet) [][][]interface{} {
+	out := [][][]interface{}{}
+	e := w.e
+	if !e.api.logEvents {
+		return out
+	}
+	cur := map[string]*v1.Pod{}
+	for _, o := range e.podIdx.List() {
+		p := o.(*v1.Pod)
+		cur[p.Name] = p
+	}
+	abs := func(p *v1.Pod) []interface{} {
+		if p == nil {
+			return []interface{}{}
+		}
+		return w.AbsPods(set, []*v1.Pod{p})[0]
+	}
+	for _, ev := range e.api.evlog[RPods][e.cursor[RPods]:] {
+		old := cur[ev.Name]
+		var nw *v1.Pod
+		if ev.Obj != nil {
+			nw = ev.Obj.(*v1.Pod)
+		}
+		if old == nil && nw == nil {
+			continue
+		}
+		out = append(out, [][]interface{}{abs(old), abs(nw)})
+		if nw == nil {
+			delete(cur, ev.Name)
+		} else {
+			cur[ev.Name] = nw
+		}
+	}
+	return out
 }
 
 func (w *World) pvcUIDs() [][]string {
@@ -414,6 +453,7 @@ func (w *World) run(b *Behaviour, strip string, maxRounds int) *simOut {
 		// a controller (work queue, rate limiter) of its own for every behaviour: no retry of an earlier one can arrive here
 		w.e.ssc.VerifQueue().ShutDown()
 		w.e = NewEnv()
+		w.e.api.logEvents = true
 	}
 	w.e.Reset()
 	for _, a := range b.Acts {
